@@ -710,9 +710,12 @@ def part3(acc, tier, seed, deadline):
     acc.info["part3 cases"] = len(cases)
     acc.info["part3 subscription orders"] = len(set(c[0] for c in cases))
     acc.info["part3 most subscriptions in one timeline"] = max(len(c[0]) for c in cases)
+    if time.time() > deadline:
+        return
     if sub.info.get("part3 timelines", 0) != len(cases) and not sub.caps:
         raise HarnessError("part3: %r of %d timelines were run" % (sub.info.get("part3 timelines"), len(cases)))
-    pick = [c for c in cases if len(c[0]) == max(len(x[0]) for x in cases) and c[3] == "passive"]
+    most = max(len(x[0]) for x in cases)
+    pick = [c for c in cases if len(c[0]) == most and c[3] == "passive"]
     case = pick[(seed or 0) % len(pick)]
     r = p3_run(p3_cfg(), p3_timeline(*case))
     acc.sample({"part": 3, "case": case,
